@@ -15,13 +15,25 @@ def _limits():
     resource.setrlimit(resource.RLIMIT_AS, (MEM_KB * 1024, MEM_KB * 1024))
 
 
+OUT_CAP = 400 * 1024 * 1024
+
+
 def _run(cmd, timeout, cwd=None):
+    """run a tool with a time limit, an address-space limit and a cap on the output that is read back"""
+    import tempfile
     t0 = time.time()
-    try:
-        p = subprocess.run(cmd, stdout=subprocess.PIPE, stderr=subprocess.PIPE, text=True, timeout=timeout, cwd=cwd, preexec_fn=_limits)
-        return p.returncode, p.stdout, p.stderr, time.time() - t0
-    except subprocess.TimeoutExpired as e:
-        return 'timeout', (e.stdout or b'').decode('utf-8', 'replace') if isinstance(e.stdout, bytes) else (e.stdout or ''), '', time.time() - t0
+    with tempfile.TemporaryFile() as fo, tempfile.TemporaryFile() as fe:
+        try:
+            p = subprocess.run(cmd, stdout=fo, stderr=fe, timeout=timeout, cwd=cwd, preexec_fn=_limits)
+            rc = p.returncode
+        except subprocess.TimeoutExpired:
+            rc = 'timeout'
+        fo.seek(0, 2)
+        if fo.tell() > OUT_CAP:
+            return 'toolarge', '', 'tool output of %d bytes exceeds the cap' % fo.tell(), time.time() - t0
+        fo.seek(0)
+        fe.seek(0)
+        return rc, fo.read().decode('utf-8', 'replace'), fe.read(OUT_CAP).decode('utf-8', 'replace'), time.time() - t0
 
 
 class Proof:
@@ -116,6 +128,10 @@ class Proof:
                 os.unlink(f)
             except OSError:
                 pass
+        if rc == 'toolarge':
+            res['status'] = 'tool-error'
+            res['detail'] = err
+            return res
         if rc == 'timeout':
             res['status'] = 'timeout'
             res['detail'] = 'cbmc exceeded %ds' % self.timeout
